@@ -497,7 +497,17 @@ func checkC10(c *Check) {
 		}()
 		rp := renameProgram(b.p, j.from, j.to)
 		if j.class == "own-name" {
-			r2 := Interpret(rp, 32, interpBudget)
+			// a renaming onto another identifier can make the program ill typed; the reference interpreter assumes
+			// well-typed programs, so any fault inside it means "not a meaning-preserving renaming"
+			var r2 Result
+			func() {
+				defer func() {
+					if rec := recover(); rec != nil {
+						r2 = Result{Undefined: "ill-typed after renaming"}
+					}
+				}()
+				r2 = Interpret(rp, 32, interpBudget)
+			}()
 			if r2.Undefined != "" || r2.Stdout != b.ref.Stdout || r2.Exit != b.ref.Exit {
 				c.Count("own_name_renamings_not_meaning_preserving_skipped", 1)
 				return
